@@ -1850,3 +1850,29 @@ Qed.
 
 End DetP.
 
+
+
+(* ---------- get_ruleset: the selected rules come in file order whatever the enumeration of the set of names ---------- *)
+Lemma select_rules_ext_proof : forall n en en', (forall x, In x en <-> In x en') -> select_rules n en = select_rules n en'.
+Proof.
+  intros n en en' H. unfold select_rules. apply filter_ext. intros i.
+  destruct (existsb (Z.eqb i) en) eqn:E; destruct (existsb (Z.eqb i) en') eqn:E'; try reflexivity; exfalso.
+  - apply existsb_exists in E. destruct E as (x & Hx & Hi). apply Z.eqb_eq in Hi. subst x.
+    assert (existsb (Z.eqb i) en' = true); [|congruence]. apply existsb_exists. exists i. split; [apply H; exact Hx|apply Z.eqb_refl].
+  - apply existsb_exists in E'. destruct E' as (x & Hx & Hi). apply Z.eqb_eq in Hi. subst x.
+    assert (existsb (Z.eqb i) en = true); [|congruence]. apply existsb_exists. exists i. split; [apply H; exact Hx|apply Z.eqb_refl].
+Qed.
+
+Lemma select_rules_spec_proof : forall n en i, In i (select_rules n en) <-> (0 <= i < n /\ In i en).
+Proof.
+  intros n en i. unfold select_rules. rewrite filter_In, in_map_iff. split.
+  - intros ((k & Hk & Hin) & Hm). apply in_seq in Hin. apply existsb_exists in Hm. destruct Hm as (x & Hx & Hi).
+    apply Z.eqb_eq in Hi. subst x. split; [lia|exact Hx].
+  - intros (Hr & Hin). split.
+    + exists (Z.to_nat i). split; [lia|]. apply in_seq. lia.
+    + apply existsb_exists. exists i. split; [exact Hin|apply Z.eqb_refl].
+Qed.
+
+Lemma select_in_set_order_refuted_proof : exists n en en', (forall x, In x en <-> In x en') /\
+  select_in_set_order n en <> select_in_set_order n en' /\ select_rules n en = select_rules n en'.
+Proof. exists 5, [3; 1], [1; 3]. split; [intros x; cbn; tauto|]. split; [vm_compute; discriminate|reflexivity]. Qed.
